@@ -65,6 +65,7 @@ func (w *World) VerifyFunc(key string) (vc *VC, err error) {
 	}
 	fc := w.cons.Funcs[key]
 	w.regAllocKeys()
+	w.registerLockHeaps()
 	vc = NewVC(w, relName(fn))
 	if fc != nil {
 		if f, ok := fc.Opts["fuel"]; ok {
@@ -91,6 +92,7 @@ func (w *World) VerifyFunc(key string) (vc *VC, err error) {
 		hdrHeaps: map[*ssa.BasicBlock]*Heap{}}
 	fr.entry = vc.entryHeap("0")
 	st := &State{reach: True, heap: fr.entry}
+	fr.lockEntry(st)
 	var args, free []*Val
 	for _, p := range fn.Params {
 		args = append(args, fr.freshParam(smtName(p.Name()), p.Type(), st))
@@ -254,6 +256,7 @@ func (w *World) VerifyFunc(key string) (vc *VC, err error) {
 		fr.assignsOK = fr.mkAssignsOK(fc, env)
 	}
 	res, out := fr.run(st, args, free)
+	fr.lockExit(out.reach, out.heap)
 	vc.replay = &replayInfo{fn: fn, params: args, result: res}
 	// postconditions
 	if fc != nil {
